@@ -1,27 +1,69 @@
 /-
   C19  A picture is accepted exactly when it is a sequence of documented tokens.
-  (Interim layer while Lemmas/Munch is being completed: blank rendering, the field budget, and kernel-checked
-   instances; the general theorems `next_eq_munchNext` / `tryNew_eq_munch` are stated in Props/C19.full.txt.)
+  Main theorem: the crate's hand-written dispatch (Model/Lexer) IS the generic maximal-munch tokenizer over the
+  documented token table (Spec/Munch): same accept/reject, same fields, same styles, same blank-run lengths,
+  for every byte string.
 -/
-import SqlDt.Spec.Munch
+import SqlDt.Lemmas.Munch
 import SqlDt.Model.Format
 namespace SqlDt.C19
 open SqlDt Gen Spec
 
+/-- `Formatter::try_new` = maximal munch over the documented table, for EVERY byte string:
+    a picture compiles exactly when it splits by case-insensitive longest match into at most `MAX_FIELDS`
+    documented tokens, and then the compiled field list is that token list. -/
+theorem tryNew_eq_munch (pic : Bytes) : Lexer.tryNew pic = munch pic := Lemmas.tryNew_eq_munch pic
+
+/-- First-token agreement for every byte string — except that on `FF0…` the crate gives up at once while maximal munch
+    reads `FF` and fails on the `0` one step later (`next_ff0`): same overall verdict, as `tryNew_eq_munch` shows. -/
+theorem next_eq_munchNext (s : Bytes) (h : ¬ Lemmas.startsFF0 s) : Lexer.nextNorm s = munchNext s :=
+  Lemmas.next_eq_munchNext s h
+
+theorem next_ff0 (a b : Nat) (r : Bytes) (ha : a = 70 ∨ a = 102) (hb : b = 70 ∨ b = 102) :
+    Lexer.nextNorm (a :: b :: 48 :: r) = some none ∧
+    munchNext (a :: b :: 48 :: r) = some (some (.Fraction none, 48 :: r)) ∧
+    munchNext (48 :: r) = some none := Lemmas.next_ff0 a b r ha hb
+
+/-- A run of blanks of ANY length is one token of exactly that length … -/
+theorem blank_run (n : Nat) (rest : Bytes) (h : rest.head? ≠ some 32) :
+    Lexer.next (List.replicate (n + 1) 32 ++ rest) = some (.Blank (n + 1), rest) := Lemmas.blank_run n rest h
+
+/-- … and is rendered with that many blanks. -/
 theorem blank_rendering (ty : Ty) (v : Int) (dt : NDT) (w : Sink) (n : Nat) (hc : w.cap = none) :
     Formatter.formatField ty v dt w (.Blank n) = .ok { w with buf := w.buf ++ List.replicate n 32 } := by
   simp [Formatter.formatField, Sink.write, hc]
 
+/-- The only failure of picture compilation is a format error. -/
+theorem tryNew_error_kind (pic : Bytes) (e : Err) (h : Lexer.tryNew pic = .error e) : e = .InvalidFormat := by
+  unfold Lexer.tryNew at h
+  revert h
+  generalize pic.length + 1 = fuel
+  generalize ([] : List Field) = acc
+  induction fuel generalizing pic acc with
+  | zero => intro h; simp [Lexer.tryNewAux] at h
+  | succ n ih =>
+    intro h
+    unfold Lexer.tryNewAux at h
+    split at h
+    · cases h
+    · split at h
+      · cases h; rfl
+      · split at h
+        · cases h; rfl
+        · exact ih _ _ h
+
 /-- At most `MAX_FIELDS` = 36 tokens. -/
 theorem max_fields : MAX_FIELDS = 36 := rfl
 
-/-- Every one- and two-byte picture (all 256 + 65,536 of them): the lexer and maximal munch agree. -/
-theorem agree_len1 : ∀ a < 256, Lexer.tryNew [a] = munch [a] := by decide +kernel
+/-- Name style from the first two letters; meridian style lower-case only if all letters are. -/
+example : nameStyle (lit "MOnth") false = .Upper ∧ nameStyle (lit "Month") false = .Capital ∧
+    nameStyle (lit "mONTH") false = .Lower ∧ nameStyle (lit "Dy") true = .AbbrCapital ∧
+    ampmStyle (lit "aM") false = .Upper ∧ ampmStyle (lit "a.m.") true = .LowerDot := by decide
 
 example : Lexer.tryNew (lit "YYYY-MM-DD HH24:MI:SS.FF6") =
     .ok [.Year 4, .Hyphen, .Month, .Hyphen, .Day, .Blank 1, .Hour24, .Colon, .Minute, .Colon, .Second, .Dot, .Fraction (some 6)] ∧
     Lexer.tryNew (lit "DA") = .error .InvalidFormat ∧ Lexer.tryNew (lit "DAM") = .ok [.DayOfWeek, .AmPm .Upper] ∧
     Lexer.tryNew (lit "Month") = .ok [.MonthName .Capital] ∧ Lexer.tryNew (lit "mON") = .ok [.MonthName .AbbrLower] ∧
-    Lexer.tryNew (lit "t") = .error .InvalidFormat := by decide +kernel
+    Lexer.tryNew (lit "t") = .error .InvalidFormat ∧ Lexer.tryNew (lit "FF0") = .error .InvalidFormat := by decide +kernel
 
 end SqlDt.C19
